@@ -80,13 +80,16 @@ def run(chk):
         m_pc, m_var = ans[2 * i], ans[2 * i + 1]
         chk.case(sample={"n": n} if i % 97 == 0 else None, nontrivial_key=tuple(n) if any(c > 1 for c in n) else None)
         chk.count(f"N<=4" if N <= 4 else ("N<=14" if N <= 14 else "N>14"))
+        # one array object serves all float calls for this count vector (an estimate and its error bar come from the same counts):
+        # it must come back unchanged
+        shared = np.array(n)
         # exact path
         if N >= 2:
             r = core.call_real(lambda: st.pc_n(frac_arr(n)))
             want = Fraction(m_pc[1])
             if r != ("ok", want):
                 first_bad = first_bad or ("pc_n", n, str(r), str(want))
-            rf = core.call_real(lambda: float(st.pc_n(np.array(n))))
+            rf = core.call_real(lambda: float(st.pc_n(shared)))
             if rf[0] != "ok" or rf[1] != float(want):
                 first_bad = first_bad or ("pc_n(float)", n, str(rf), str(float(want)))
         if N >= 4:
@@ -94,11 +97,11 @@ def run(chk):
             want = Fraction(m_var[1])
             if r != ("ok", want):
                 first_bad = first_bad or ("varpc_n", n, str(r), str(want))
-            rf = core.call_real(lambda: float(st.varpc_n(np.array(n))))
+            rf = core.call_real(lambda: float(st.varpc_n(shared)))
             if rf[0] != "ok" or abs(rf[1] - float(want)) > 1e-9 * max(1.0, abs(float(want))):
                 first_bad = first_bad or ("varpc_n(float)", n, str(rf), str(float(want)))
             if want >= 0:
-                rs = core.call_real(lambda: float(st.stdpc_n(np.array(n))))
+                rs = core.call_real(lambda: float(st.stdpc_n(shared)))
                 # (when the exact variance estimate is 0 the float expression may round to -1e-16 and its root to nan: rounding, not claimed)
                 isnan = rs[0] == "ok" and math.isnan(rs[1])
                 if rs[0] != "ok" or (isnan and want > 1e-12) or (not isnan and abs(rs[1] ** 2 - float(want)) > 1e-9 * max(1e-9, abs(float(want))) + 1e-15):
@@ -107,6 +110,10 @@ def run(chk):
                 isnan2 = rs2[0] == "ok" and math.isnan(rs2[1])
                 if rs2[0] != "ok" or (isnan2 and want > 1e-12) or (not isnan2 and abs(rs2[1] ** 2 - float(want)) > 1e-9 * max(1e-9, abs(float(want))) + 1e-15):
                     first_bad = first_bad or ("stdpc", n, str(rs2), f"sqrt({float(want)})")
+        if shared.tolist() != list(n):
+            chk.violation("C06|pc_n|overwrites-counts", f"pc_n / varpc_n / stdpc_n changed the count array they were given: {list(n)} -> {shared.tolist()} "
+                          "(the variance estimate computed next from the same array is no longer that of the sample)", {"n": list(n), "after": shared.tolist()})
+            break
     if first_bad and first_bad[0] in ("stdpc_n", "stdpc"):
         # the property states it outright: stdpc / stdpc_n return the square root of the variance estimate for the same counts
         chk.violation(f"C06|{first_bad[0]}|not-sqrt-of-varpc", f"{first_bad[0]}({first_bad[1]}) = {first_bad[2]} is not {first_bad[3]}",
@@ -184,10 +191,15 @@ def run(chk):
             chk.violation("C06|pc-table|biased", f"E[pc(table)] = {tot} != sum p^2 = {sum(x ** 2 for x in pr)} for row-valued categories, N={N}",
                           {"N": N, "categories": cats})
     # two-sample: E[pc(x, y)] = sum p q, exact enumeration over small samples
-    for (K, p), (_, q) in [(grids[0], grids[1]), (grids[2], grids[3])]:
+    # (category labels: single letters; labels of different widths where one is a prefix of another - as lists and as
+    # NumPy arrays whose dtypes then differ between the samples; integer vs float ids)
+    label_sets = [("letters", lambda K: list("ABCDEF"[:K]), list), ("prefix-widths", lambda K: ["CAS", "CASS", "CASSLG", "CASSL"][:K], list),
+                  ("prefix-widths-ndarray", lambda K: ["CAS", "CASS", "CASSLG", "CASSL"][:K], np.array)]
+    for gi, ((K, p), (_, q)) in enumerate([(grids[0], grids[1]), (grids[2], grids[3])] * 3):
+        lname, mk, cont = label_sets[gi // 2]
         for N1, N2 in [(1, 1), (2, 3), (3, 2)]:
             tot = Fraction(0)
-            letters = "ABCDEF"[:K]
+            letters = mk(K)
             for xs in itertools.product(range(K), repeat=N1):
                 for ys in itertools.product(range(K), repeat=N2):
                     w = Fraction(1)
@@ -195,14 +207,14 @@ def run(chk):
                         w *= p[i]
                     for i in ys:
                         w *= q[i]
-                    val = st.pc([letters[i] for i in xs], [letters[i] for i in ys])
+                    val = st.pc(cont([letters[i] for i in xs]), cont([letters[i] for i in ys]))
                     tot += w * Fraction(float(val)).limit_denominator(10 ** 6)
             want = sum(a * b for a, b in zip(p, q))
-            chk.case(nontrivial_key=("E2", N1, N2, tuple(p), tuple(q)))
+            chk.case(nontrivial_key=("E2", lname, N1, N2, tuple(p), tuple(q)))
             chk.count("oracle:E[pc(a,b)]")
             if tot != want:
-                chk.violation("C06|pc2|biased", f"E[pc(a,b)] = {tot} != sum p q = {want} for N1={N1}, N2={N2}",
-                              {"N1": N1, "N2": N2, "p": [str(x) for x in p], "q": [str(x) for x in q]})
+                chk.violation("C06|pc2|biased", f"E[pc(a,b)] = {tot} != sum p q = {want} for N1={N1}, N2={N2}, category labels {letters} ({lname})",
+                              {"N1": N1, "N2": N2, "p": [str(x) for x in p], "q": [str(x) for x in q], "labels": letters, "container": lname})
 
 
 def replay(path):
